@@ -95,7 +95,66 @@ def canon_closed_form(expr, pieces=None):
             except Exception as ex:  # noqa
                 vals.append("!" + type(ex).__name__)
         out.append(vals)
-    return {"vals": out, "free": sorted(ren.get(s.name, s.name) for s in params)}
+    try:
+        bases = effective_bases(exprs[-1] if pieces is not None else expr)
+    except Exception:  # noqa
+        bases = None
+    return {"vals": out, "free": sorted(ren.get(s.name, s.name) for s in params), "bases": bases}
+
+
+def effective_bases(expr, digits=60):
+    """Growth bases of the general formula: for every additive term the product of b**k over its factors b**(k*n + c),
+    as [re, im] decimal strings.  None if the formula is not an exponential polynomial with constant bases (symbolic
+    parameters, other functions of n)."""
+    import sympy
+    e = sympy.sympify(expr)
+    n = next((s for s in e.free_symbols if s.name == "n"), None)
+    if isinstance(e, sympy.Piecewise):
+        e = e.args[-1][0]
+    if e.has(sympy.Piecewise) or e.free_symbols - ({n} if n is not None else set()):
+        return None
+    if n is None:
+        return [["1", "0"]] if e != 0 else []
+    if sympy.count_ops(e) > 4000:
+        return None
+    e = sympy.expand(e)
+    out = set()
+    for term in sympy.Add.make_args(e):
+        base = sympy.Integer(1)
+        for f in sympy.Mul.make_args(term):
+            if not f.has(n):
+                continue
+            if isinstance(f, sympy.Pow) and not f.base.has(n):
+                ex = sympy.expand(f.exp)
+                k = ex.coeff(n, 1)
+                if (ex - k * n).has(n) or not k.is_number:
+                    return None
+                base = base * f.base ** k
+            elif f.is_polynomial(n):
+                continue
+            else:
+                return None
+        re_, im_ = sympy.N(base, digits).as_real_imag()
+        out.add((str(re_), str(im_)))
+    return sorted([a, b] for a, b in out)
+
+
+def bases_within(exact_bases, approx_bases, tol):
+    """largest distance from an exact base (other than 0 and 1) to the nearest approximate base; None if not comparable"""
+    import mpmath
+    mpmath.mp.dps = 70
+    if exact_bases is None or approx_bases is None:
+        return None
+    ap = [mpmath.mpc(mpmath.mpf(a), mpmath.mpf(b)) for a, b in approx_bases]
+    worst = mpmath.mpf(0)
+    for a, b in exact_bases:
+        z = mpmath.mpc(mpmath.mpf(a), mpmath.mpf(b))
+        if abs(z) < mpmath.mpf(10) ** -50 or abs(z - 1) < mpmath.mpf(10) ** -50:
+            continue
+        if not ap:
+            return None
+        worst = max(worst, min(abs(z - c) for c in ap))
+    return worst
 
 
 def _fr(f):
